@@ -28,7 +28,7 @@ var (
 
 var scopes = []*scope{
 	// ---- quick ----
-	{Name: "1-2rules/full/zones", Tiers: "quick", Roles: allRoles, Counts: []int{1, 2, 3}, Cons: []int{0, 1, 2, 3, 4, 5, 6, 7}, Locs: []int{0, 1, 2},
+	{Name: "1-2rules/full/zones", Tiers: "quick", Roles: allRoles, Counts: []int{1, 2, 3}, Cons: []int{0, 1, 2, 3, 4, 6, 7}, Locs: []int{0, 1, 2},
 		MinRules: 1, MaxRules: 2, Layouts: []int{0}, MinPeers: 2, MaxPeers: 4},
 	{Name: "1-2rules/mid/sparse", Tiers: "quick", Roles: allRoles, Counts: []int{1, 2, 3}, Cons: []int{0, 1, 3, 4, 5, 6}, Locs: []int{0, 2},
 		MinRules: 1, MaxRules: 2, Layouts: []int{1}, MinPeers: 1, MaxPeers: 5, Leaderless: true},
